@@ -70,6 +70,7 @@ pub fn run_stage_opt(name: &str, runs: u64, wall_cap: Duration, total: &mut Stat
     };
     let hang_limit = Duration::from_secs(std::env::var("VERIF_HANG_LIMIT").ok().and_then(|s| s.parse().ok()).unwrap_or(60));
     let b = run_batch(runs, c.jobs, wall_cap, hang_limit, &on_hang, |i, st| {
+        let t_run = std::time::Instant::now();
         let sc = gen(i);
         st.runs += 1;
         if let Some(n) = sc.nodes.first() {
@@ -84,7 +85,10 @@ pub fn run_stage_opt(name: &str, runs: u64, wall_cap: Duration, total: &mut Stat
             short.ops.truncate(sample_ops);
             st.samples.push(json!({"stage": name, "run": i, "total_ops": total_ops, "scenario_first_ops": short}));
         }
-        match exec(&sc, st) {
+        let verdict = exec(&sc, st);
+        // wall time of the slowest single run (reported only; never part of a digest or a decision)
+        st.max("slowest_run_ms", t_run.elapsed().as_secs_f64() * 1000.0);
+        match verdict {
             Some(v) if hermetic => {
                 let prop = v.property.clone();
                 let herm = |c: &Scenario| hermetic_exec(&prop, c).unwrap_or(None);
